@@ -78,6 +78,10 @@ Section Spec.
     | TStruct fs =>
         match s with
         | SObj sfs =>
+            (* every member the specification describes is one the struct reads (by name or alias):
+               none is silently dropped as "unknown" *)
+            forallb (fun sf => mem_str (fst sf) (flat_map (fun f => f_name (fst f) :: f_aliases (fst f)) fs)) sfs
+            &&
             (fix go (fs : list (fmeta * ty)) : bool :=
                match fs with
                | [] => true
